@@ -429,10 +429,23 @@ static int isr_next_id;
 static int isr_done;
 static int isr_action[4]; /* per nesting level: 0 = claim+send, 1 = claim only (send later at main level is not possible) */
 
+static int isr_role; /* 0: the interrupt is a sender; 1: the interrupt is THE receiver (main context only sends) */
 static void isr_sender(int level, int id, void *ctx)
 {
 	(void)ctx;
 	(void)id;
+	if (isr_role == 1 && level == 1) {
+		/* THE receiver: receive and release up to two messages.  (An interrupt nested inside it acts as a
+		 * sender: there is only ever one receiver.) */
+		for (int i = 0; i < 2 && !failed; i++) {
+			uint8_t *p = mon_receive();
+			isr_done++;
+			if (!p)
+				break;
+			mon_release(p);
+		}
+		return;
+	}
 	uint32_t mid = (uint32_t)(9000 + level * 100 + isr_next_id++);
 	uint8_t *p = mon_claim(MAXS + level, mid);
 	isr_done++;
@@ -447,6 +460,7 @@ typedef struct {
 	int depth;
 	const char *prefill; /* executed with injection disabled */
 	const char *script;  /* executed with injection enabled */
+	int isr_role;        /* 0 sender, 1 receiver */
 } scenario_t;
 
 static const scenario_t scenarios[] = {
@@ -463,6 +477,12 @@ static const scenario_t scenarios[] = {
 	{ "full queue of claimed-but-unsent, then send", 2, "cc", "cs" },
 	{ "depth 32, claim+send+receive+release", 32, "cscscscs", "csrl" },
 	{ "drain: receive all of a full queue", 3, "cscscs", "rlrlrlr" },
+	/* the receiver preempts a sender (higher-priority consumer): main context only claims and sends */
+	{ "receiver ISR inside claim on a full queue", 3, "cscscs", "c", 1 },
+	{ "receiver ISR inside claim+send, queue part full", 3, "cs", "cscs", 1 },
+	{ "receiver ISR inside claim on full queue of depth 1", 1, "cs", "ccs", 1 },
+	{ "receiver ISR inside two claims then sends", 2, "cs", "ccss", 1 },
+	{ "receiver ISR, empty queue, claim+send", 2, "", "cs", 1 },
 };
 #define NSCEN (sizeof(scenarios) / sizeof(scenarios[0]))
 
@@ -522,6 +542,7 @@ static uint64_t run_scenario(const scenario_t *sc, int msg_len, uint64_t *isr1_p
 	isr_done = 0;
 	shim_enable(false);
 	run_script(sc->prefill);
+	isr_role = sc->isr_role;
 	shim_set_isr(isr_sender, NULL);
 	shim_set_point_limit(1000000);
 	shim_set_abort_jmp(&abort_env);
@@ -584,7 +605,7 @@ static void isr_sweeps(void)
 			if (mine || vh_opt.thorough || 1) {
 				shim_reset();
 				shim_plan_add(0, 0, p, 0);
-				snprintf(scen, sizeof(scen), "interrupt sweep, scenario '%s' (depth %d, prefill %s, script %s), ISR claim+send before main point %" PRIu64 " of %" PRIu64,
+				snprintf(scen, sizeof(scen), "interrupt sweep, scenario '%s' (depth %d, prefill %s, script %s), ISR before main point %" PRIu64 " of %" PRIu64,
 					 sc->name, sc->depth, sc->prefill, sc->script, p, P);
 				snprintf(key, sizeof(key), "isr:scenario=%u,p=%" PRIu64, si, p);
 				vh_case_key(key);
